@@ -2,110 +2,207 @@
   Props/C12 — replicas executing the same blocks reach the same state (partial: logic proved,
   runtime observed).  In Lean every model step is a function, so determinism of the *models* is
   vacuous; the content of the property is the Go runtime's freedom (map iteration order, wall clock,
-  process-local randomness, goroutines).  This file
-   (1) proves, once and for all inputs, the pattern lemmas that make the iteration order of a map
-       irrelevant for each way the production code uses one, with the order as an explicit,
-       universally quantified permutation;
+  process-local randomness, goroutines, floats, the environment, heap addresses).  This file
+   (1) states, for every CLASS of site, that the executable model of its loop shape
+       (Model/Determinism.lean) computes the same value for every enumeration order of the map —
+       the order is an explicit, universally quantified permutation; keys of a map are unique
+       (proofs in Lemmas/DetShapes.lean);
    (2) decides, over the site table regenerated from the source on every run (type-aware extractor
-       /verif/sites), that every nondeterminism site of the production packages is covered by the
-       reviewed allow-list below — a new `range` over a map, `time.Now`, `rand`, `go` or `select`
-       in consensus code makes this theorem fail.
+       /verif/sites, one row per SITE with its ordinal within the function), that every site is
+       covered by exactly its own entry of the reviewed allow-list below, that the entry's reason is
+       one the extracted loop class admits, and that every function has as many sites as entries —
+       a second `range` over a map, a `rand.Intn`, a `time.Now`, a `%p` … added anywhere, an
+       allow-listed function included, makes these theorems fail;
+   (3) puts the two together: `every_site_order_independent`.
   The runtime part is observed by the harness (same history in several OS processes, full store
-  digests and results compared after every block).
+  digests, results and gas compared after every op).
 -/
 import DymVerif.Gen.MapSites
+import DymVerif.Lemmas.DetShapes
 namespace DymVerif.C12
 open DymVerif.Det
 
--- ---------------------------------------------------------------- (1) pattern lemmas
+-- ---------------------------------------------------------------- (1) one theorem per class of site
 
-/-- keys collected from a map in ANY order and then sorted give the same slice
-    (`mapKeysToSlice`, `GetSortedStringKeys`, `InitializeAllLocks`, `Distinct`) -/
-theorem sort_perm_invariant (keys keys' : List Nat) (h : keys'.Perm keys) :
-    keys'.mergeSort (fun a b => decide (a ≤ b)) = keys.mergeSort (fun a b => decide (a ≤ b)) := by
-  apply List.Perm.eq_of_pairwise (le := fun a b => decide (a ≤ b) = true)
-  · intro a b _ _ h1 h2
-    simp at h1 h2; omega
-  · exact List.pairwise_mergeSort (fun a b c h1 h2 => by simp at *; omega) (fun a b => by simp; omega) _
-  · exact List.pairwise_mergeSort (fun a b c h1 h2 => by simp at *; omega) (fun a b => by simp; omega) _
-  · exact (List.mergeSort_perm _ _).trans (h.trans (List.mergeSort_perm _ _).symm)
+/-- `keysCollectedThenSorted` (`mapKeysToSlice`, `GetSortedStringKeys`, `InitializeAllLocks`) -/
+theorem keys_collected_then_sorted (m₁ m₂ : Enum) (h : m₁.Perm m₂) :
+    collectThenSort m₁ = collectThenSort m₂ :=
+  collectThenSort_order_independent m₁ m₂ h
 
-theorem uniq_key_eq (recs : List (Nat × Nat)) (huniq : recs.Pairwise (fun a b => a.1 ≠ b.1)) :
-    ∀ a b, a ∈ recs → b ∈ recs → a.1 = b.1 → a = b := by
-  induction recs with
-  | nil => intro a b ha; cases ha
-  | cons x xs ih =>
-    intro a b ha hb hab
-    have hp := List.pairwise_cons.1 huniq
-    rcases List.mem_cons.1 ha with h1 | h1 <;> rcases List.mem_cons.1 hb with h2 | h2
-    · rw [h1, h2]
-    · subst h1; exact absurd hab (hp.1 b h2)
-    · subst h2; exact absurd hab.symm (hp.1 a h1)
-    · exact ih hp.2 a b h1 h2 hab
+/-- values (filtered) collected, then sorted by the key of the map they came from
+    (`UpdateDistrRecords`, `Distinct`): needs the keys to be unique — they are keys of a map -/
+theorem values_sorted_by_map_key (keep : Nat × Nat → Bool) (m₁ m₂ : Enum) (hw : m₁.WF) (h : m₁.Perm m₂) :
+    collectFilteredSortByKey keep m₁ = collectFilteredSortByKey keep m₂ :=
+  collectFilteredSortByKey_order_independent keep m₁ m₂ hw h
 
-/-- records keyed by a unique id, collected in ANY order and then sorted by that id, give the same
-    slice (`UpdateDistrRecords`: map keyed by gauge id, `sort.SliceStable` by gauge id) -/
-theorem sort_by_unique_key_perm_invariant (recs recs' : List (Nat × Nat)) (h : recs'.Perm recs)
-    (huniq : recs.Pairwise (fun a b => a.1 ≠ b.1)) :
-    recs'.mergeSort (fun a b => decide (a.1 ≤ b.1)) = recs.mergeSort (fun a b => decide (a.1 ≤ b.1)) := by
-  have hu := uniq_key_eq recs huniq
-  apply List.Perm.eq_of_pairwise (le := fun a b => decide (a.1 ≤ b.1) = true)
-  · intro a b ha hb h1 h2
-    have ha' : a ∈ recs := h.subset ((List.mergeSort_perm _ _).subset ha)
-    have hb' : b ∈ recs := (List.mergeSort_perm _ _).subset hb
-    simp at h1 h2
-    exact hu a b ha' hb' (by omega)
-  · exact List.pairwise_mergeSort (fun a b c h1 h2 => by simp at *; omega) (fun a b => by simp; omega) _
-  · exact List.pairwise_mergeSort (fun a b c h1 h2 => by simp at *; omega) (fun a b => by simp; omega) _
-  · exact (List.mergeSort_perm _ _).trans (h.trans (List.mergeSort_perm _ _).symm)
+/-- `membershipOnly` (`ModuleAccountAddrs`) -/
+theorem membership_only (m₁ m₂ : Enum) (h : m₁.Perm m₂) (x : Nat) : memberTest m₁ x = memberTest m₂ x :=
+  memberTest_order_independent m₁ m₂ h x
 
-/-- a map-to-map copy / membership test does not depend on the enumeration order (`ModuleAccountAddrs`) -/
-theorem membership_perm_invariant (keys keys' : List Nat) (h : keys'.Perm keys) (x : Nat) :
-    x ∈ keys' ↔ x ∈ keys := h.mem_iff
+/-- `commutativeAccumulate` (no site of this class at the pinned tree) -/
+theorem commutative_accumulate (m₁ m₂ : Enum) (h : m₁.Perm m₂) : foldComm m₁ = foldComm m₂ :=
+  foldComm_order_independent m₁ m₂ h
 
-/-- a commutative accumulation does not depend on the enumeration order -/
-theorem commutative_fold_perm_invariant (xs xs' : List Nat) (h : xs'.Perm xs) : xs'.sum = xs.sum :=
-  h.sum_nat
+/-- `seededFromTx` (`FulfillByOnDemandLP`): the shuffled order is a function of the message's seed and
+    of the sorted candidate list — the same on every replica, however the candidates were enumerated -/
+theorem seeded_shuffle_function_of_tx (prng : Nat → Nat → List Nat) (loc₁ loc₂ : Local) (txSeed : Nat)
+    (m₁ m₂ : Enum) (h : m₁.Perm m₂) :
+    seededShuffle prng .txField loc₁ txSeed (collectThenSort m₁) =
+      seededShuffle prng .txField loc₂ txSeed (collectThenSort m₂) :=
+  seededShuffle_order_independent prng loc₁ loc₂ txSeed m₁ m₂ h
 
--- ---------------------------------------------------------------- (2) the reviewed allow-list
+/-- why the extractor insists on the origin of the seed: seeded from the wall clock (or from the
+    global source) two replicas shuffle differently -/
+theorem seeded_from_clock_counterexample :
+    seededShuffle (fun s n => (List.range n).map (fun i => (i + s) % n)) .wallclock ⟨0, 0⟩ 7 [10, 20, 30] ≠
+      seededShuffle (fun s n => (List.range n).map (fun i => (i + s) % n)) .wallclock ⟨1, 0⟩ 7 [10, 20, 30] := by
+  decide
+
+/-- the value every shape hands on is independent of the enumeration order … -/
+theorem every_shape_order_independent (sh : Shape) (p : Params) (m₁ m₂ : Enum) (hw : m₁.WF) (h : m₁.Perm m₂) :
+    sh.eval p m₁ = sh.eval p m₂ :=
+  shape_order_independent sh p m₁ m₂ hw h
+
+/-- … and of what is local to the replica -/
+theorem every_shape_replica_independent (sh : Shape) (p : Params) (loc' : Local) (m : Enum) :
+    sh.eval p m = sh.eval { p with loc := loc' } m :=
+  shape_replica_independent sh p loc' m
+
+/-- the two consumers whose sort key must be unique: uniqueness is DISCHARGED (the map is built by
+    insertion, `mapOfList_wf`), not assumed -/
+theorem update_distr_records_order_independent (old upd : List (Nat × Nat)) (e₁ e₂ : Enum)
+    (h₁ : e₁.Perm (mapOfList (old ++ upd))) (h₂ : e₂.Perm (mapOfList (old ++ upd))) :
+    updateDistrRecords e₁ = updateDistrRecords e₂ :=
+  updateDistrRecords_order_independent old upd e₁ e₂ h₁ h₂
+
+theorem distinct_addresses_order_independent (l : List Nat) (e₁ e₂ : Enum)
+    (h₁ : e₁.Perm (mapOfList (l.map fun a => (a, a)))) (h₂ : e₂.Perm (mapOfList (l.map fun a => (a, a)))) :
+    collectFilteredSortByKey (fun _ => true) e₁ = collectFilteredSortByKey (fun _ => true) e₂ :=
+  distinct_order_independent l e₁ e₂ h₁ h₂
+
+theorem module_account_addrs_order_independent (p₁ p₂ : Enum) (h : p₁.Perm p₂) (excl : List Nat) (x : Nat) :
+    moduleAccountAddrs p₁ excl x = moduleAccountAddrs p₂ excl x :=
+  moduleAccountAddrs_order_independent p₁ p₂ h excl x
+
+-- ---------------------------------------------------------------- (2) the reviewed allow-list: ONE ENTRY PER SITE
 
 def allow : List Allowed := [
   -- app wiring, runs once at process start / CLI option assembly
-  { kind := .maprange, file := "app/app.go", fn := "App.AutoCliOpts", reason := .appWiring },
-  { kind := .maprange, file := "app/modules.go", fn := "ModuleAccountAddrs", reason := .membershipOnly },
-  -- HTTP health-check handler, not consensus code
-  { kind := .wallclock, file := "app/healthcheck.go", fn := "HealthcheckRequestHandlerFn", reason := .notConsensus },
+  { kind := .maprange, file := "app/app.go", fn := "App.AutoCliOpts", cls := "unknown", ord := 0, reason := .appWiring },
+  -- HTTP health-check handler, not consensus code (two reads)
+  { kind := .wallclock, file := "app/healthcheck.go", fn := "HealthcheckRequestHandlerFn", cls := "time.Now", ord := 0, reason := .notConsensus },
+  { kind := .wallclock, file := "app/healthcheck.go", fn := "HealthcheckRequestHandlerFn", cls := "time.Now", ord := 1, reason := .notConsensus },
+  -- map-to-map copy  (membership_only)
+  { kind := .maprange, file := "app/modules.go", fn := "ModuleAccountAddrs", cls := "membership", ord := 0, reason := .membershipOnly },
   -- genesis export fallback when the context carries no block time (export is not block execution)
-  { kind := .wallclock, file := "x/dymns/genesis.go", fn := "ExportGenesis", reason := .notConsensus },
-  -- unique set collected from a map, sorted in a defer before returning  (sort_perm_invariant)
-  { kind := .maprange, file := "x/dymns/types/reverse_resolved_dym_name_address.go", fn := "ReverseResolvedDymNameAddresses.Distinct", reason := .sortedAfter },
-  { kind := .maprange, file := "x/dymns/utils/map.go", fn := "GetSortedStringKeys", reason := .sortedAfter },
-  -- deterministic PRNG seeded by a message field: the shuffle is a function of (seed, list)
-  { kind := .rand, file := "x/eibc/keeper/lps.go", fn := "Keeper.FulfillByOnDemandLP", reason := .notConsensus },
+  { kind := .wallclock, file := "x/dymns/genesis.go", fn := "ExportGenesis", cls := "time.Now", ord := 0, reason := .notConsensus },
+  -- values of a map keyed by the value's own string, sorted by that string in a defer  (values_sorted_by_map_key)
+  { kind := .maprange, file := "x/dymns/types/reverse_resolved_dym_name_address.go", fn := "ReverseResolvedDymNameAddresses.Distinct", cls := "collectValues+sorted", ord := 0, reason := .sortedByUniqueKey },
+  -- keys collected then sorted  (keys_collected_then_sorted)
+  { kind := .maprange, file := "x/dymns/utils/map.go", fn := "GetSortedStringKeys", cls := "collectKeys+sorted", ord := 0, reason := .sortedAfter },
+  -- deterministic PRNG seeded by a message field (extractor: the seed is a parameter that every
+  -- production caller fills from a field of a proto `Msg…`)  (seeded_shuffle_function_of_tx)
+  { kind := .rand, file := "x/eibc/keeper/lps.go", fn := "Keeper.FulfillByOnDemandLP", cls := "math/rand.New", ord := 0, reason := .seededFromTx },
+  { kind := .rand, file := "x/eibc/keeper/lps.go", fn := "Keeper.FulfillByOnDemandLP", cls := "math/rand.NewSource seed=param<-msgField", ord := 1, reason := .seededFromTx },
   -- event attributes only (events are not part of the app hash nor of the results hash)
-  { kind := .maprange, file := "x/incentives/keeper/gauge_asset.go", fn := "RewardDistributionTracker.GetEvents", reason := .eventOnly },
-  -- durations collected then sorted  (sort_perm_invariant)
-  { kind := .maprange, file := "x/lockup/keeper/lock.go", fn := "Keeper.InitializeAllLocks", reason := .sortedAfter },
-  -- proposer set of a hard fork: keys collected then sorted  (sort_perm_invariant)
-  { kind := .maprange, file := "x/rollapp/keeper/hard_fork.go", fn := "mapKeysToSlice", reason := .sortedAfter },
-  -- records from a map keyed by unique gauge id, then sorted by gauge id  (sort_by_unique_key_perm_invariant)
-  { kind := .maprange, file := "x/streamer/keeper/keeper_replace_update_distribution.go", fn := "Keeper.UpdateDistrRecords", reason := .sortedAfter }
+  { kind := .maprange, file := "x/incentives/keeper/gauge_asset.go", fn := "RewardDistributionTracker.GetEvents", cls := "collectValues", ord := 0, reason := .eventOnly },
+  -- durations collected then sorted  (keys_collected_then_sorted)
+  { kind := .maprange, file := "x/lockup/keeper/lock.go", fn := "Keeper.InitializeAllLocks", cls := "collectKeys+sorted", ord := 0, reason := .sortedAfter },
+  -- proposer set of a hard fork: keys collected then sorted  (keys_collected_then_sorted)
+  { kind := .maprange, file := "x/rollapp/keeper/hard_fork.go", fn := "mapKeysToSlice", cls := "collectKeys+sorted", ord := 0, reason := .sortedAfter },
+  -- non-zero records of a map keyed by gauge id, then sorted by gauge id  (values_sorted_by_map_key)
+  { kind := .maprange, file := "x/streamer/keeper/keeper_replace_update_distribution.go", fn := "Keeper.UpdateDistrRecords", cls := "collectFiltered+sorted", ord := 0, reason := .sortedByUniqueKey }
 ]
 
-/-- **every nondeterminism site of the production packages is covered by the reviewed list**
-    (re-decided on every run over the regenerated table) -/
+/-- **every nondeterminism site of the production packages is covered by its own reviewed entry**
+    (kind, file, function, loop class, ordinal; re-decided on every run over the regenerated table) -/
 theorem site_table_ok : covered Gen.MapSites.sites allow = true := by decide
+
+/-- **every function has exactly as many extracted sites as allow entries** -/
+theorem site_counts_match : countsMatch Gen.MapSites.sites allow = true := by decide
+
+/-- … so ANY further site — whatever its kind, class and ordinal, inside an allow-listed function or
+    not — breaks the table (for all sites, not only the ones tried) -/
+theorem any_added_site_breaks_the_table (s : Site) : countsMatch (s :: Gen.MapSites.sites) allow = false :=
+  added_site_breaks_counts Gen.MapSites.sites allow s site_counts_match
+
+/-- the reason of every entry is one the extractor's classification of the source admits
+    (`sortedAfter` only where it saw the collected slice being sorted, `seededFromTx` only where the
+    seed comes from a message field, …) -/
+theorem site_reasons_match_source : wellReasoned Gen.MapSites.sites allow = true := by decide
+
+/-- no entry of the allow-list is stale -/
+theorem allow_list_has_no_stale_entry :
+    (allow.all fun a => Gen.MapSites.sites.any fun s => s.allowedBy a) = true := by decide
+
+-- ---------------------------------------------------------------- (3) sites × shapes
+
+/-- **for every extracted site**: it has a reviewed entry whose reason the source admits, and the
+    value a loop of that reason's shape computes does not depend on the order in which the map is
+    enumerated nor on anything local to the replica (`outside`: the site computes nothing that
+    reaches consensus state — reviewed, not derived) -/
+theorem every_site_order_independent :
+    ∀ s ∈ Gen.MapSites.sites, ∃ a ∈ allow, s.allowedBy a = true ∧ a.reason.admits s.kind s.cls = true ∧
+      ∀ (p : Params) (loc' : Local) (m₁ m₂ : Enum), m₁.WF → m₁.Perm m₂ →
+        a.reason.shape.eval p m₁ = a.reason.shape.eval { p with loc := loc' } m₂ := by
+  intro s hs
+  obtain ⟨a, ha, h1, h2⟩ := wellReasoned_spec _ _ site_reasons_match_source s hs
+  refine ⟨a, ha, h1, h2, ?_⟩
+  intro p loc' m₁ m₂ hw h
+  rw [shape_order_independent a.reason.shape p m₁ m₂ hw h]
+  exact shape_replica_independent _ p loc' m₂
+
+-- ---------------------------------------------------------------- kinds that do not occur at all
 
 /-- no goroutines and no `select` in the production packages at all -/
 theorem no_goroutines : (Gen.MapSites.sites.filter fun s => s.kind == .go || s.kind == .select) = [] := by decide
 
-/-- wall-clock reads only in the two non-consensus places -/
+/-- no `maps.Keys` / `maps.Values` / `maps.All` (std or x/exp) -/
+theorem no_mapkeys : (Gen.MapSites.sites.filter fun s => s.kind == .mapkeys) = [] := by decide
+
+/-- no `reflect.Value.MapKeys` / `MapRange` -/
+theorem no_reflectmap : (Gen.MapSites.sites.filter fun s => s.kind == .reflectmap) = [] := by decide
+
+/-- no `(*sync.Map).Range` -/
+theorem no_syncmap : (Gen.MapSites.sites.filter fun s => s.kind == .syncmap) = [] := by decide
+
+/-- no float32 / float64 arithmetic outside CLI and simulation code -/
+theorem no_float : (Gen.MapSites.sites.filter fun s => s.kind == .float) = [] := by decide
+
+/-- no read of the process environment -/
+theorem no_getenv : (Gen.MapSites.sites.filter fun s => s.kind == .getenv) = [] := by decide
+
+/-- no `%p` and no capability pointer handed to a formatting call -/
+theorem no_fmtptr : (Gen.MapSites.sites.filter fun s => s.kind == .fmtptr) = [] := by decide
+
+/-- wall-clock reads (time.Now / Since / Until, cometbft's tmtime.Now, …) only in the two
+    non-consensus places -/
 theorem wallclock_only_outside_consensus :
     ((Gen.MapSites.sites.filter fun s => s.kind == .wallclock).map (·.fn)).all
       (fun f => f == "HealthcheckRequestHandlerFn" || f == "ExportGenesis") = true := by decide
 
--- non-vacuity: the pattern lemma on a concrete permutation
-example : [3, 1, 2].mergeSort (fun a b => decide (a ≤ b)) = [2, 3, 1].mergeSort (fun a b => decide (a ≤ b)) :=
-  sort_perm_invariant [2, 3, 1] [3, 1, 2] (by decide)
+/-- randomness only in the one seeded place, and nothing there but the seeded constructor pair -/
+theorem rand_only_seeded_from_tx :
+    ((Gen.MapSites.sites.filter fun s => s.kind == .rand).map (·.cls)) =
+      ["math/rand.New", "math/rand.NewSource seed=param<-msgField"] := by decide
+
+-- ---------------------------------------------------------------- non-vacuity
+
+example : collectThenSort [(3, 0), (1, 0), (2, 0)] = collectThenSort [(2, 0), (3, 0), (1, 0)] :=
+  keys_collected_then_sorted _ _ (by decide)
+
+example : collectThenSort [(3, 0), (1, 0), (2, 0)] = [1, 2, 3] := by
+  simp [collectThenSort, List.mergeSort, List.MergeSort.Internal.splitInTwo]
+
+example : updateDistrRecords (mapOfList ([(1, 5), (2, 7), (3, 1)] ++ [(2, 0), (4, 9)])) = some [(1, 5), (3, 1), (4, 9)] := by
+  simp [updateDistrRecords, mapOfList, mapInsert, collectFilteredSortByKey, List.mergeSort, List.MergeSort.Internal.splitInTwo]
+
+/-- without unique keys the sort-by-key shape DOES depend on the order (so `WF` is not decoration) -/
+example : collectFilteredSortByKey (fun _ => true) [(1, 5), (1, 6)] ≠ collectFilteredSortByKey (fun _ => true) [(1, 6), (1, 5)] := by
+  simp [collectFilteredSortByKey, List.mergeSort, List.MergeSort.Internal.splitInTwo]
+
+/-- the coarse key of the previous allow-list would have let this second, unsorted range through -/
+example : countsMatch ({ kind := .maprange, file := "x/rollapp/keeper/hard_fork.go", fn := "mapKeysToSlice", cls := "unknown", ord := 1 } :: Gen.MapSites.sites) allow = false :=
+  any_added_site_breaks_the_table _
 
 end DymVerif.C12
